@@ -116,7 +116,8 @@ def rad50(state, string: str) -> bytes:
             string = get_as_str(state, "'.rad50' operand", state["insn"], chunk)
             for char in string:
                 try:
-                    if len(char.upper()) != 1:
+                    if len(char.upper()) != 1 or not char.isascii():
+                        # (U+017F, U+0131 and U+212A turn into 'S', 'I' and 'K' when upper-cased)
                         raise ValueError(char)
                     val = radix50.TABLE.index(char.upper())
                 except ValueError:
